@@ -29,7 +29,8 @@ from . import lib, runner, callsym, seqsem, c04, c16
 
 AGENTS = ["o1", "o2", "o3"]
 # fluents the plan never touches, of the shapes the property names: zero-arity, two arguments, repeated argument
-EXOTIC_FLUENTS = ["(g)", "(h o2 o1)", "(h o1 o1)", "(w3 o1 o1 o1)", "(f k)"]  # the last two: an argument three times; a constant
+# an argument three times; a constant; a constant BEFORE an object and between objects (argument order must survive)
+EXOTIC_FLUENTS = ["(g)", "(h o2 o1)", "(h o1 o1)", "(w3 o1 o1 o1)", "(f k)", "(h k o1)", "(w3 o2 k o1)"]
 EXOTIC_ATOMS = ["(r)", "(q o2 o2)"]
 _N = [0]
 
@@ -303,7 +304,7 @@ def tasks_for(tier, seed):
     for i, p in enumerate(singles):
         for with_problem in (True, False):
             tasks.append({"kind": "single", "plan": p, "allow": bool((i + with_problem) % 2), "with_problem": with_problem,
-                          "extra_fluents": EXOTIC_FLUENTS[: 1 + i % 5], "extra_atoms": 1 + i % 2,
+                          "extra_fluents": EXOTIC_FLUENTS[: 1 + i % 7], "extra_atoms": 1 + i % 2,
                           "cap": 8 if tier == "quick" else 10, "max_paths": 800 if tier == "quick" else 6000,
                           "sym_atoms": 6 if tier == "quick" else 8})
     for p, kind in (([("take", ["o1", "o2"]), ("flag", ["o1"])], "single"), ([("charge", ["o2"])], "single")):
@@ -325,7 +326,7 @@ def tasks_for(tier, seed):
     joints = joints[: (40 if tier == "quick" else 300)]
     for i, j in enumerate(joints):
         plan = [j] if i % 2 else [j, rng.choice(joints)]
-        tasks.append({"kind": "joint", "plan": plan, "with_problem": bool(i % 3), "extra_fluents": EXOTIC_FLUENTS[: 1 + i % 5],
+        tasks.append({"kind": "joint", "plan": plan, "with_problem": bool(i % 3), "extra_fluents": EXOTIC_FLUENTS[: 1 + i % 7],
                       "extra_atoms": 1 + i % 2, "cap": 8 if tier == "quick" else 10, "max_paths": 800 if tier == "quick" else 6000,
                       "sym_atoms": 6 if tier == "quick" else 8})
     return tasks
